@@ -2,7 +2,7 @@
 
 // C12 — refresh keeps at most refresh.retain revisions and never discards ones in use.
 //
-// Histories of at most D operations over {refresh->new, refresh->kept r, revert->kept r, set refresh.retain to
+// Histories of at most D operations over {refresh->new, sideload (local revision), refresh->kept r, revert->kept r, set refresh.retain to
 // one of {unset, 2, 3, 5, "2", "4", 20}} after the install, on a classic device and a core device (app snap),
 // and on a core device for the model's kernel snap with every boot in-use answer {kernel} / {kernel, try-kernel}
 // over the kept revisions as an additional environment operation. Breadth-first with state deduplication;
@@ -73,7 +73,8 @@ var c12Before c12Pre
 
 // c12Oracle evaluates the statement after a settled refresh.
 func c12Oracle(core bool, pre c12Pre, op vOp, res vRes, post vSnap) []string {
-	if op.K != "refresh-new" && op.K != "refresh-kept" {
+	// a sideload over an installed snap is a refresh to a new (local) revision: same garbage collection
+	if op.K != "refresh-new" && op.K != "refresh-kept" && op.K != "sideload" {
 		return nil
 	}
 	var v []string
@@ -168,7 +169,26 @@ func c12Gen(st vState) []vOp {
 	return ops
 }
 
-const c12Rule = "all histories up to the depth bound over {refresh->new, refresh->each kept, revert->each kept, set refresh.retain in {unset,2,3,5,\"2\",\"4\",20}, boot in-use answer (kernel snap)} from an installed snap, per device root, states deduplicated on the canonical key (breadth-first, replay from a fresh fixture); the oracle is evaluated after every settled refresh; non-trivial = refreshes in which at least one revision was discarded"
+// c12GenLocal is the alphabet of the "-local" roots: store and sideloaded revisions mixed. sideload refreshes
+// from a local file; snapd numbers the revision itself (x1, x2, …) and plans the garbage collection while the
+// revision is still unset. refresh.retain stays at the device default (set-retain x local revisions would
+// multiply the state count by ~6 for a mechanism that compares revisions only for equality).
+func c12GenLocal(st vState) []vOp {
+	a := st.A
+	if !a.Installed {
+		return nil
+	}
+	ci := vIndexOf(a.Seq, a.Cur)
+	ops := []vOp{{K: "refresh-new"}, {K: "sideload"}}
+	for p := range a.Seq {
+		if p != ci {
+			ops = append(ops, vOp{K: "refresh-kept", P: p}, vOp{K: "revert-to", P: p})
+		}
+	}
+	return ops
+}
+
+const c12Rule = "all histories up to the depth bound over {refresh->new, refresh->each kept, revert->each kept, set refresh.retain in {unset,2,3,5,\"2\",\"4\",20}, boot in-use answer (kernel snap)} from an installed snap, per device root, states deduplicated on the canonical key (breadth-first, replay from a fresh fixture); on the -local roots the alphabet is {refresh->new (--amend when the current revision is a sideloaded one), sideload (refresh from a local file to a new local revision), refresh->each kept, revert->each kept} at the device's default retain; the oracle is evaluated after every settled refresh (sideloads included); non-trivial = refreshes in which at least one revision was discarded"
 
 func (s *verifC12Suite) TestVerifC12(c *C) {
 	r := eng.Start("C12", "model_checking", 300*time.Second, 14*time.Minute)
@@ -243,11 +263,15 @@ func (s *verifC12Suite) TestVerifC12(c *C) {
 		Name  string `json:"name"`
 		Path  vPath  `json:"path"`
 		Depth int    `json:"depth"`
+		gen   func(st vState) []vOp
 	}
+	ldepth := r.Pick(5, 7)
 	roots := []root{
-		{"classic-app", vPath{Cfg: vCfg{}, Ops: []vOp{{K: "install"}}}, depth},
-		{"core-app", vPath{Cfg: vCfg{Core: true}, Ops: []vOp{{K: "install"}}}, depth},
-		{"core-kernel", vPath{Cfg: vCfg{Core: true, Kernel: true}, Ops: []vOp{{K: "install"}, {K: "inuse", P: 0}}}, kdepth},
+		{"classic-app", vPath{Cfg: vCfg{}, Ops: []vOp{{K: "install"}}}, depth, c12Gen},
+		{"core-app", vPath{Cfg: vCfg{Core: true}, Ops: []vOp{{K: "install"}}}, depth, c12Gen},
+		{"core-kernel", vPath{Cfg: vCfg{Core: true, Kernel: true}, Ops: []vOp{{K: "install"}, {K: "inuse", P: 0}}}, kdepth, c12Gen},
+		{"classic-app-local", vPath{Cfg: vCfg{}, Ops: []vOp{{K: "sideload"}}}, ldepth, c12GenLocal},
+		{"core-app-local", vPath{Cfg: vCfg{Core: true}, Ops: []vOp{{K: "sideload"}}}, ldepth, c12GenLocal},
 	}
 	total := 0
 	byRoot := map[string]interface{}{}
@@ -257,7 +281,7 @@ func (s *verifC12Suite) TestVerifC12(c *C) {
 			continue
 		}
 		t0 := time.Now()
-		states, trans := vBFS("C12", c, []vPath{rt.Path}, c12Gen, rt.Depth, 16)
+		states, trans := vBFS("C12", c, []vPath{rt.Path}, rt.gen, rt.Depth, 16)
 		total += len(states)
 		r.Add("states", int64(len(states)))
 		r.Add("transitions", int64(trans))
